@@ -67,7 +67,7 @@ CLAIMED = {
     "C13": ("Coq proof on the container model Space.v/Discover.v (lookup semantics, parents-first invariant over all build programs, new-entry flags) + differential correspondence with HyperParameters and BaseTuner construction",
             "C13_declare_* / C13_get / C13_contains: what declaring and reading return (assigned value if known and active, default if unknown, None if the conditions do not hold; ValueError vs KeyError). "
             "C13_parents_first(_inv): in every container any build program produces - name scopes and conditional scopes nested to any depth, eager or if-guarded - each entry's condition parents are registered earlier. "
-            "C13_new_entries: tune_new_entries / allow_new_entries. PARTIAL: termination and completeness of _populate_initial_space are not proved; the real tuner constructor is compared with Discover.v (discovered space, "
+            "C13_new_entries: tune_new_entries / allow_new_entries. C13_discovery_partial_correctness: for EVERY build program, when _populate_initial_space returns, every conditional scope opened in any of its builds was active in at least one of them and (allow/tune_new_entries = True) everything any build registered is in the oracle's space. PARTIAL: termination of _populate_initial_space is not proved; the real tuner constructor is compared with Discover.v (discovered space, "
             "values, number of builds, outcome) on generated programs incl. shared names, under all four flag settings.",
             "Trusted: Coq kernel/vm_compute; python harness; raw names contain no '/'; kinds enter the model through name, conditions and default only.", "DESIGN.md section 6 C13"),
     "C14": ("Coq proof: exact layer (Z/Q) + IEEE-754 binary64 layer over Flocq (FloatIndex.v, HpFloat.v) + bit-exact correspondence; libm-dependent kinds checked on the implementation only",
